@@ -246,7 +246,14 @@ func runC09(t *testing.T, sc *world.Scenario) *check.Result {
 	res.Sample = fmt.Sprintf("c09 #%d/%d combo=%s faults=%s", int(sc.Params["index"]), int(sc.Params["total"]), sc.Variant, strings.Join(fd, " + "))
 	worldDir, outDir := l2Dirs()
 	defer l2Cleanup(worldDir)
-	co := runChild(&childSpec{Scenario: sc, WorldDir: worldDir, OutDir: outDir}, 120*time.Second)
+	spec := &childSpec{Scenario: sc, WorldDir: worldDir, OutDir: outDir}
+	if kernel.NewRand(sc.Seed, "c09.display").Bool(0.3) {
+		// a daemon started from a desktop session: DISPLAY is set (to a display nobody is logged in on), so
+		// the desktop-notification path of "Fan Control Error" is taken instead of returning at once
+		spec.Env = []string{"DISPLAY=:77"}
+		res.Probe("runs-with-DISPLAY-set")
+	}
+	co := runChild(spec, 120*time.Second)
 	accumulate(res, co)
 	if co.Harness != "" {
 		res.Harness = co.Harness + "\n" + tailStr(co.Stderr, 1500)
